@@ -324,6 +324,7 @@ func c15JudgeDirect(w *fw.W, t *c15Tx, op plugintypes.Operator, s *c15Spec, in s
 	if !judged {
 		w.Count("ambiguous_skipped", 1)
 		w.Cover("ambiguous_reasons", why)
+		w.Count("ambiguous: "+why, 1)
 		return c15Outcome{}
 	}
 	w.Eval(1)
